@@ -326,6 +326,12 @@ func (h *harness) sctCases(th *treeHead, idx int64) []sctCase {
 		mk("sct-timestamp+1", func(s *ct.SignedCertificateTimestamp, si *sigInfo) { s.Timestamp++ }),
 		mk("sct-timestamp-msb", func(s *ct.SignedCertificateTimestamp, si *sigInfo) { s.Timestamp |= 1 << 63 }),
 		mk("sct-index-out-of-range", func(s *ct.SignedCertificateTimestamp, si *sigInfo) { s.Extensions = extOf(th.tree.N + int64(h.r.Intn(5))) }),
+		// the same leaf index plus a multiple of 2^32 (the top byte of the 40-bit field): far outside the tree
+		mk("sct-index+2^32", func(s *ct.SignedCertificateTimestamp, si *sigInfo) { s.Extensions = rawIdxExt(idx + 1<<32) }),
+		mk("sct-index+k*2^32", func(s *ct.SignedCertificateTimestamp, si *sigInfo) {
+			s.Extensions = rawIdxExt(idx + int64(1+h.r.Intn(255))<<32)
+		}),
+		mk("sct-index-top-bit", func(s *ct.SignedCertificateTimestamp, si *sigInfo) { s.Extensions = rawIdxExt(idx | 0x80<<32) }),
 		mk("sct-sig-foreign-key", func(s *ct.SignedCertificateTimestamp, si *sigInfo) {
 			s.Signature.Signature = signLeaf(h.B.key, leaf)
 			si.signer = h.B.keyID
@@ -431,10 +437,12 @@ func (h *harness) monIncl(th *treeHead, sctBytes []byte, e *sunlight.LogEntry, p
 	if s.LogID.KeyID != lg.logID {
 		return "FAILS:confirmed an SCT with a foreign log ID"
 	}
-	x, err := sunlight.ParseExtensions(s.Extensions)
-	if err != nil || x.LeafIndex < 0 || x.LeafIndex >= th.tree.N {
+	// the leaf index is read here byte by byte (not with the library's own parser, which is under test)
+	li, ok := rawLeafIndex(s.Extensions)
+	if !ok || li < 0 || li >= th.tree.N {
 		return "FAILS:confirmed an SCT without a leaf index inside the tree"
 	}
+	x := struct{ LeafIndex int64 }{li}
 	t := lg.truth[x.LeafIndex]
 	if uint64(t.Timestamp) != s.Timestamp {
 		return fmt.Sprintf("FAILS:confirmed an SCT whose timestamp %d is not the leaf's %d", s.Timestamp, t.Timestamp)
@@ -898,4 +906,35 @@ func (h *harness) bigCases(th *treeHead) {
 		h.runEntries(th, false, true, 0, "hash-bit@"+strings.TrimPrefix(p, "tile/"), ovr)
 		h.monHashReader(th, 12800, n, "hash-bit@"+strings.TrimPrefix(p, "tile/"), ovr)
 	}
+}
+
+
+// rawIdxExt: CTExtensions holding one leaf_index extension (type 0, 40-bit big-endian value), built by hand
+func rawIdxExt(i int64) []byte {
+	return []byte{0, 0, 5, byte(i >> 32), byte(i >> 24), byte(i >> 16), byte(i >> 8), byte(i)}
+}
+
+// rawLeafIndex: the value of the first leaf_index extension, skipping unknown extensions; ok=false when
+// the bytes are not a well-formed extension list containing exactly that
+func rawLeafIndex(b []byte) (int64, bool) {
+	found, v := false, int64(0)
+	for len(b) > 0 {
+		if len(b) < 3 {
+			return 0, false
+		}
+		typ, n := b[0], int(b[1])<<8|int(b[2])
+		if len(b) < 3+n {
+			return 0, false
+		}
+		body := b[3 : 3+n]
+		b = b[3+n:]
+		if typ == 0 {
+			if found || n != 5 {
+				return 0, false
+			}
+			found = true
+			v = int64(body[0])<<32 | int64(body[1])<<24 | int64(body[2])<<16 | int64(body[3])<<8 | int64(body[4])
+		}
+	}
+	return v, found
 }
